@@ -239,7 +239,9 @@ def cli_fresh_oracle(ctx, rounds):
                                   "--use-fonts-dir/--use-font-file arguments give %d different outputs" % (rounds, tool, len(distinct)),
                                   dict(kind='cli-fresh', tool=tool, doc=doc, font_args=[a.replace(wd, '<wd>') for a in fargs],
                                        outputs=distinct, rounds=rounds))
-        ctx.cov['e2e_cli_fresh_process'] = dict(documents=len(CLI_TEXT_DOCS), tools=2, rounds=rounds, runs=ncmp)
+        # the same stdin bytes delivered through a pipe in different chunkings must give the same output in every process
+        nchunk = c20.stdin_chunk_oracle(ctx, rb, ub, wd, rounds <= 6)
+        ctx.cov['e2e_cli_fresh_process'] = dict(documents=len(CLI_TEXT_DOCS), tools=2, rounds=rounds, runs=ncmp, stdin_chunk_runs=nchunk)
     finally:
         shutil.rmtree(wd, ignore_errors=True)
 
@@ -553,13 +555,16 @@ def replay(ctx, path):
     r = json.load(open(path))
     print(json.dumps({k: v for k, v in r.items() if k != 'replay'}, indent=1))
     rp = r.get('replay', {})
-    if 'doc' not in rp:
+    if 'doc' not in rp and rp.get('kind') != 'stdin-chunks':
         print(json.dumps(rp, indent=1)[:6000])
         return 0
     binp, _ = ctx.harness('release')
     if binp is None:
         print("harness does not build")
         return 1
+    if rp.get('kind') == 'stdin-chunks' and rp.get('chunks'):
+        from props import c20
+        return c20.replay_chunks(ctx, rp)
     if rp.get('kind') == 'cli-fresh':
         print("re-running the fresh-process oracle of the real binaries (documents and font arguments are fixed in c06.py)")
         print(json.dumps(rp, indent=1, ensure_ascii=False)[:3000])
